@@ -1,2 +1,156 @@
+//! C05 — Blind BBS issuance and presentation completeness.
+
+use crate::api::*;
 use crate::common::*;
-pub fn scenarios(_ctx: &Ctx) -> Vec<Scenario> { vec![] }
+use serde_json::json;
+
+#[derive(Clone, Copy, Debug, PartialEq)]
+enum Mode {
+    Commit,      // commit(Some(cm))
+    CommitNone,  // commit(None): M = 0 with a blind factor
+    NoCommitment // blind_sign without any commitment
+}
+
+fn one<X: Sx>(ctx: &Ctx, idx: u64, l: usize, m: usize, mode: Mode, exhaustive: bool) {
+    let mut r = ctx.rng("c05", idx);
+    let (sk, pk) = keypair::<X>(&mut r);
+    let msgs = gen_messages(&mut r, l, idx as usize);
+    let cm = gen_messages(&mut r, m, idx as usize + 3);
+    let hdr = Hdr::gen(&mut r, &[1, 16, 300]);
+    let base = format!("{}/L{}/M{}/{:?}/hdr={}", name::<X>(), l, m, mode, hdr.class());
+    let detail = |what: &str, out: &Outcome| json!({"case":base,"what":what,"outcome":out.short(),"sk":hx(&sk.to_bytes()),"header":hx(hdr.octets()),"messages":msgs_json(&msgs),"committed":msgs_json(&cm)});
+    let m_opt: Option<&[Vec<u8>]> = if l == 0 && idx % 2 == 0 { None } else { Some(&msgs) };
+    let cm_opt: Option<&[Vec<u8>]> = if m == 0 && (idx % 2 == 0 || mode != Mode::Commit) { None } else { Some(&cm) };
+
+    let (cwp, blind): (Option<Vec<u8>>, Option<BlindFactor>) = match mode {
+        Mode::NoCommitment => (None, None),
+        _ => {
+            let c = ctx.call("commit", &base, None, || Com::<X>::commit(if mode == Mode::CommitNone { None } else { cm_opt }));
+            if c.draws.len() != m + 2 && c.outcome.is_ok() {
+                ctx.violation("C05:unexpected-rng-draw-count/commit", json!({"draws":c.draws.len(),"expected":m+2,"case":base}));
+            }
+            let Some((com, bf)) = c.value else {
+                ctx.violation("C05:commit-failed", detail("commit", &c.outcome));
+                return;
+            };
+            let b = com.to_bytes();
+            if b.len() != 48 + 32 * (m + 2) {
+                ctx.violation("C05:commitment-length", json!({"len":b.len(),"case":base}));
+            }
+            (Some(b), Some(bf))
+        }
+    };
+    let s = ctx.call("blind_sign", &base, None, || BSig::<X>::blind_sign(&sk, &pk, cwp.as_deref(), hdr.as_opt(), m_opt));
+    let Some(bsig) = s.value else {
+        ctx.violation("C05:blind_sign-failed", detail("blind_sign", &s.outcome));
+        return;
+    };
+    ctx.distinct(&base);
+    let v = ctx.call("verify_blind_sign", &base, None, || bsig.verify_blind_sign(&pk, hdr.as_opt(), m_opt, cm_opt, blind.as_ref()));
+    if !v.outcome.is_ok() {
+        ctx.violation("C05:verify_blind_sign-failed", detail("verify_blind_sign", &v.outcome));
+    }
+    let sb = bsig.to_bytes();
+    match ctx.call("from_bytes", &base, None, || BSig::<X>::from_bytes(&sb)).value {
+        Some(b2) => {
+            let v = ctx.call("verify_blind_sign", &base, None, || b2.verify_blind_sign(&pk, hdr.as_opt(), m_opt, cm_opt, blind.as_ref()));
+            if !v.outcome.is_ok() || b2 != bsig {
+                ctx.violation("C05:verify_blind_sign-after-roundtrip-failed", detail("roundtrip", &v.outcome));
+            }
+        }
+        None => ctx.violation("C05:blind-signature-decode-failed", json!({"case":base})),
+    }
+    // presentations
+    let pairs: Vec<(Vec<usize>, Vec<usize>)> = if exhaustive {
+        all_subsets(l).into_iter().flat_map(|d| all_subsets(m).into_iter().map(move |c| (d.clone(), c))).collect()
+    } else {
+        let mut v = vec![(vec![], vec![]), ((0..l).collect(), (0..m).collect()), ((0..l).collect(), vec![]), (vec![], (0..m).collect())];
+        for _ in 0..ctx.t(4, 12) {
+            use rand::RngCore;
+            v.push(((0..l).filter(|_| r.next_u32() % 2 == 0).collect(), (0..m).filter(|_| r.next_u32() % 2 == 0).collect()));
+        }
+        v
+    };
+    for (k, (d, c)) in pairs.iter().enumerate() {
+        let ph = match k % 3 {
+            0 => Hdr::Absent,
+            1 => Hdr::Empty,
+            _ => Hdr::Bytes(rand_bytes(&mut r, 24)),
+        };
+        let case = format!("{}/D={:?}/C={:?}/ph={}", base, if l <= 8 { d.clone() } else { vec![d.len()] }, if m <= 8 { c.clone() } else { vec![c.len()] }, ph.class());
+        ctx.distinct(&case);
+        let d_opt: Option<&[usize]> = if d.is_empty() && k % 2 == 0 { None } else { Some(d) };
+        let c_opt: Option<&[usize]> = if c.is_empty() && k % 2 == 0 { None } else { Some(c) };
+        let g = ctx.call("blind_proof_gen", &case, None, || {
+            Pok::<X>::blind_proof_gen(&pk, &sb, hdr.as_opt(), ph.as_opt(), m_opt, cm_opt, d_opt, c_opt, blind.as_ref())
+        });
+        let Some(proof) = g.value else {
+            ctx.violation("C05:blind_proof_gen-failed", json!({"case":case,"outcome":g.outcome.short(),"d":detail("blind_proof_gen", &g.outcome)}));
+            continue;
+        };
+        let u = l + 1 + m - d.len() - c.len();
+        if g.draws.len() != 5 + u {
+            ctx.violation("C05:unexpected-rng-draw-count/proof", json!({"draws":g.draws.len(),"expected":5+u,"case":case}));
+        }
+        let pb = proof.to_bytes();
+        if pb.len() != 272 + 32 * u {
+            ctx.violation("C05:proof-length", json!({"len":pb.len(),"expected":272+32*u,"case":case}));
+        }
+        let dm: Vec<Vec<u8>> = d.iter().map(|&i| msgs[i].clone()).collect();
+        let dcm: Vec<Vec<u8>> = c.iter().map(|&j| cm[j].clone()).collect();
+        let l_opt = if l == 0 && k % 2 == 0 { None } else { Some(l) };
+        for via_bytes in [false, true] {
+            let p = if via_bytes {
+                match ctx.call("from_bytes", &case, None, || Pok::<X>::from_bytes(&pb)).value {
+                    Some(p) => p,
+                    None => {
+                        ctx.violation("C05:blind-proof-decode-failed", json!({"case":case,"proof":hx_full(&pb)}));
+                        continue;
+                    }
+                }
+            } else {
+                proof.clone()
+            };
+            let v = ctx.call("blind_proof_verify", &case, None, || {
+                p.blind_proof_verify(&pk, hdr.as_opt(), ph.as_opt(), l_opt, Some(&dm), Some(&dcm), d_opt, c_opt)
+            });
+            if !v.outcome.is_ok() {
+                ctx.violation("C05:honest-blind-proof-rejected", json!({"case":case,"via_bytes":via_bytes,"outcome":v.outcome.short(),"proof":hx_full(&pb),"d":detail("blind_proof_verify", &v.outcome)}));
+            }
+        }
+        if k == 1 {
+            ctx.sample(json!({"case":case,"proof_len":pb.len(),"rng_draws":g.draws.len(),"verify":"Ok"}));
+        }
+    }
+}
+
+pub fn scenarios(ctx: &Ctx) -> Vec<Scenario> {
+    let mut v = Vec::new();
+    let mut idx = 0u64;
+    let mut push = |v: &mut Vec<Scenario>, l: usize, m: usize, mode: Mode, ex: bool| {
+        let i = idx;
+        idx += 1;
+        v.push(scenario(format!("sha/L{l}/M{m}/{mode:?}"), move |c| one::<Sha>(c, i, l, m, mode, ex)));
+        v.push(scenario(format!("shake/L{l}/M{m}/{mode:?}"), move |c| one::<Shake>(c, i, l, m, mode, ex)));
+    };
+    let big: &[(usize, usize)] = ctx.t(&[(0, 5), (10, 0), (10, 5), (1, 17), (33, 2)][..], &[(0, 5), (10, 0), (10, 5), (1, 17), (33, 2), (5, 5), (100, 10), (2, 64), (256, 1), (0, 33)][..]);
+    for &(l, m) in big {
+        push(&mut v, l, m, Mode::Commit, false);
+        if m == 0 {
+            push(&mut v, l, 0, Mode::NoCommitment, false);
+            push(&mut v, l, 0, Mode::CommitNone, false);
+        }
+    }
+    let n = ctx.t(3usize, 4usize);
+    for rep in 0..ctx.t(1, 3) {
+        let _ = rep;
+        for l in 0..=n {
+            for m in 0..=n {
+                push(&mut v, l, m, Mode::Commit, true);
+            }
+            push(&mut v, l, 0, Mode::NoCommitment, true);
+            push(&mut v, l, 0, Mode::CommitNone, true);
+        }
+    }
+    v
+}
